@@ -333,7 +333,45 @@ def c06_f(ctx: Ctx):
     out = []
     red = f.nested.get("reduce_results")
     if red is None:
-        out.append(ctx.inc(R, f, f.node, "no nested reduce_results"))
+        # the accumulation is written out in _find_result itself: `acc = None` ... `acc = <match>` under `acc is None`, `acc = acc.intersection(<match>)` otherwise
+        inits = {t.id for n in f.node.body if isinstance(n, ast.Assign) and isinstance(n.value, ast.Constant) and n.value.value is None for t in n.targets if isinstance(t, ast.Name)}
+        accs = [a for a in inits if any(isinstance(n, ast.Assign) and any(isinstance(t, ast.Name) and t.id == a for t in n.targets) and a in names_in(n.value) for n in body_nodes(f))]
+        if len(accs) != 1:
+            out.append(ctx.inc(R, f, f.node, "no nested reduce_results and no single running-result variable initialised to None"))
+        else:
+            acc = accs[0]
+            n_ok = 0
+            for n in body_nodes(f):
+                if not (isinstance(n, ast.Assign) and len(n.targets) == 1 and isinstance(n.targets[0], ast.Name) and n.targets[0].id == acc):
+                    continue
+                v = n.value
+                if isinstance(v, ast.Constant) and v.value is None:
+                    continue
+                if acc in names_in(v):
+                    isect = (isinstance(v, ast.Call) and isinstance(v.func, ast.Attribute) and v.func.attr == "intersection" and canon(v.func.value) == acc) or \
+                            (isinstance(v, ast.BinOp) and isinstance(v.op, ast.BitAnd) and acc in (canon(v.left), canon(v.right)))
+                    if isect:
+                        facts = common.facts_at(ctx, f, n, "n")
+                        if (f"{acc} is None", False) in facts:
+                            n_ok += 1
+                        else:
+                            out.append(ctx.inc(R, f, n, f"intersection with the running result is not under `{acc} is not None`"))
+                    else:
+                        out.append(ctx.viol(R, f, n, f"later matches are not intersected with the running result: `{stmt_key(n, 60)}`"))
+                    continue
+                facts = common.facts_at(ctx, f, n, "n")
+                only_none = (f"{acc} is None", True) in facts
+                falsy = any((ft.replace(" ", "") == acc and not pol) or (ft.replace(" ", "") in (f"len({acc})==0", f"{acc}==set()") and pol) for (ft, pol) in facts)
+                if only_none and not falsy:
+                    n_ok += 1
+                elif falsy or not any(acc in ft for (ft, _p) in facts):
+                    out.append(ctx.viol(R, f, n, f"the running result is replaced whenever it is empty or unset (`{stmt_key(n, 50)}` under {sorted(facts)}): an empty intermediate result (e.g. from "
+                                        "$not) is overwritten by the next sibling condition instead of absorbing it"))
+                else:
+                    out.append(ctx.inc(R, f, n, f"accumulator test not recognised (facts {sorted(facts)})"))
+            if n_ok:
+                out.append(ctx.ok(R, f, f.node, f"the first match is recognised by `{acc} is None`", construct=f.qual + "|first-match"))
+                out.append(ctx.ok(R, f, f.node, "later matches are intersected with the running result", construct=f.qual + "|intersect"))
     else:
         tests = [n for n in body_nodes(red) if isinstance(n, ast.If)]
         par0 = red.params[0] if red.params else "match"
